@@ -222,6 +222,10 @@ def num(v):
     if isinstance(v, bool):
         return int(v)
     if isinstance(v, int):
+        # consensus: operands of the numeric opcodes are script numbers of at most 4 bytes (results may be longer, and
+        # CHECKLOCKTIMEVERIFY / CHECKSEQUENCEVERIFY read up to 5 bytes themselves)
+        if abs(v) > 0x7fffffff:
+            raise Fail("numeric operand %d longer than 4 bytes" % v)
         return v
     # byte strings longer than 4 bytes are not numbers; none of the tokens is that short
     raise Fail("non-numeric operand %r" % (v,))
